@@ -64,7 +64,7 @@ UnbornActor ==
    result |-> "none", jh |-> "none", why |-> "none", svc |-> "none",
    kids |-> <<>>, bn |-> 0, uc |-> 0, ty |-> "0",
    sq |-> [ready |-> 0, next |-> 1, ended |-> FALSE], iscr |-> <<>>, pbseen |-> FALSE,
-   subs |-> {}, fan |-> {}, bhold |-> {}, bph |-> "none", btgt |-> "none", bseq |-> 0]
+   subs |-> {}, fan |-> {}, bhold |-> {}, bph |-> "none", btgt |-> "none", bseq |-> 0, rtaken |-> 0]
 
 NoArg == [ty |-> "0", nh |-> "none", nh2 |-> "none"]
 IdleClient == [stage |-> "idle", n |-> 0, op |-> "none", h |-> "none", m |-> NoM, ta |-> "none", arg |-> NoArg, nest |-> "none",
@@ -879,9 +879,9 @@ RestartTaken(a) ==
   /\ act[a].pc = "dequeued" /\ act[a].curp.k = "restart"
   /\ IF act[a].stream THEN Fail(a, "panic")         \* environment.rs:158-162
      ELSE IF act[a].strat = "none"
-     THEN /\ act' = [act EXCEPT ![a] = [@ EXCEPT !.pc = "idle", !.curp = NoPayload]]
+     THEN /\ act' = [act EXCEPT ![a] = [@ EXCEPT !.pc = "idle", !.curp = NoPayload, !.rtaken = @ + 1]]
           /\ UNCHANGED <<hnd, cli, rsp, tmr, reg, now, hst>>
-     ELSE /\ act' = [act EXCEPT ![a] = [@ EXCEPT !.pc = "rs_stopped", !.curp = NoPayload, !.scr = act[a].pscr, !.ip = 1, !.cbk = "restart"]]
+     ELSE /\ act' = [act EXCEPT ![a] = [@ EXCEPT !.pc = "rs_stopped", !.curp = NoPayload, !.scr = act[a].pscr, !.ip = 1, !.cbk = "restart", !.rtaken = @ + 1]]
           /\ hst' = HCb(hst, a, "pb", act[a])
           /\ UNCHANGED <<hnd, cli, rsp, tmr, reg, now>>
 
